@@ -31,7 +31,8 @@ CONSTANTS N,            \* classes per universe
           M,            \* modules 1..M (1 when UseModules = FALSE)
           UseModules,   \* FALSE: direct registration incl. collisions; TRUE: collision-free universes, imports
           MaxGets,      \* lazy lookups per behaviour (UseModules)
-          DoExport
+          DoExport,     \* record / print behaviours
+          StepTables    \* exported behaviours carry the lookup table after every registration (else only the final one)
 VARIABLES u,        \* the universe (constant along a behaviour)
           att,      \* classes whose registration was attempted, in order
           acc,      \* accepted classes
@@ -103,8 +104,11 @@ Must(via, r) ==
         seen == acc \cup (IF d = 0 THEN {} ELSE ClassesOf(Closure(d)))
     IN One(Found(seen, via, r))
 Vias == {0} \cup acc
-Table == {[via |-> v, t |-> r[1], n |-> r[2], must |-> IF UseModules THEN Must(v, r) ELSE Look(v, r),
-           may |-> IF UseModules THEN Whole(v, r) ELSE Look(v, r)] : v \in Vias, r \in Refs}
+\* the lookup table (every interface reachable x every reference); exported sparsely: rows that are not listed
+\* read "missing, and nothing may be returned"
+Table == {row \in {[via |-> v, t |-> r[1], n |-> r[2], must |-> IF UseModules THEN Must(v, r) ELSE Look(v, r),
+                    may |-> IF UseModules THEN Whole(v, r) ELSE Look(v, r)] : v \in Vias, r \in Refs} :
+              row.must # 0 \/ row.may # 0}
 
 Ev(op, a, t, n, out, must, may) ==
     [op |-> op, a |-> a, t |-> t, n |-> n, out |-> out, must |-> must, may |-> may, table |-> {}]
@@ -123,7 +127,8 @@ Register(c) == /\ ~UseModules
                /\ UNCHANGED <<u, imp, gets>>
                /\ att' = Append(att, c)
                /\ acc' = IF Outcome(c) = "ok" THEN acc \cup {c} ELSE acc
-               /\ hist' = IF DoExport THEN Append(hist, [Ev("reg", c, 0, 0, Outcome(c), 0, 0) EXCEPT !.table = Table'])
+               /\ hist' = IF DoExport
+                          THEN Append(hist, [Ev("reg", c, 0, 0, Outcome(c), 0, 0) EXCEPT !.table = IF StepTables THEN Table' ELSE {}])
                           ELSE hist
 Import(m) == /\ UseModules /\ m \in Mods /\ m \notin imp
              /\ imp' = imp \cup Closure(m)
@@ -176,5 +181,5 @@ LazySound == UseModules => \A v \in Vias, r \in Refs :
 
 Done == IF UseModules THEN (imp = Mods \/ (DoExport /\ hist # <<>> /\ hist[Len(hist)].op = "get"))
         ELSE ~(\E c \in Cls : CanRegister(c))
-Export == (DoExport /\ Done) => PrintT(ToJson([u |-> u, hist |-> hist, table |-> Table]))
+Export == (DoExport /\ Done) => PrintT(ToJson([cls |-> u.cls, name |-> u.name, acc |-> acc, hist |-> hist, table |-> Table]))
 =============================================================================
